@@ -512,6 +512,54 @@ def run(ctx):
     rule_init_nan(ctx)
     rule_no_memo(ctx)
     rule_leftover_and_recycle(ctx)
+    rule_init_scope(ctx)
+
+
+INIT_KEYS = {"init_results", "init_vm_pu", "init_va_degree"}
+INIT_READERS = {
+    ("pandapower.build_bus", "_build_bus_ppc"): "writes the start vector into ppc['bus'][:, VM/VA]",
+    ("pandapower.build_bus", "_build_bus_dc_ppc"): "start vector of the dc buses",
+    ("pandapower.build_bus", "_fill_auxiliary_buses"): "start values of auxiliary buses",
+    ("pandapower.build_branch", "_switch_branches"): "start values of the auxiliary buses of open switches",
+    ("pandapower.powerflow", "_powerflow"): "verifies the result tables before they are used as start vector",
+    ("pandapower.powerflow", "_recycled_powerflow"): "recycled run starts from the stored voltages",
+    ("pandapower.optimal_powerflow", "_optimal_powerflow"): "verifies the result tables before they are used as start vector",
+    ("pandapower.results", "verify_results"): "falls back to a flat start when the result tables do not fit",
+    ("pandapower.pf.run_newton_raphson_pf", "_run_newton_raphson_pf"): "dc start of the angles",
+    ("pandapower.pf.runpf_pypower", "_get_options"): "dc start of the angles (pypower algorithms)",
+    ("pandapower.timeseries.ts_runpp", "TimeSeriesRunpp.init_timeseries_newton"): "sets the options of the time-series loop",
+}
+
+
+def rule_init_scope(ctx):
+    """previous results may enter a calculation only as the start vector: the options that select 'start from results' are consulted by
+    the start-vector code only (who-may-read rule, instances confirmed by reading)"""
+    R = "INIT-SCOPE"
+    ctx.rule(R, "the options init_results / init_vm_pu / init_va_degree are read only by the functions that build, verify or select the "
+                "start vector; any other conversion step that branches on them makes converted data (set-points, limits, topology) depend "
+                "on whether a previous result exists")
+    n = 0
+    for mn in ctx.repo.module_names():
+        if ".test" in mn or mn.startswith("pandapower.converter"):
+            continue
+        for fi in ctx.repo.module(mn).functions.values():
+            hit = None
+            for x in ast.walk(fi.node):
+                if isinstance(x, ast.Subscript) and isinstance(x.slice, ast.Constant) and x.slice.value in INIT_KEYS and "options" in ast.unparse(x.value):
+                    hit = x
+                if isinstance(x, ast.Call) and isinstance(x.func, ast.Attribute) and x.func.attr == "get" and x.args and isinstance(x.args[0], ast.Constant) \
+                        and x.args[0].value in INIT_KEYS and "options" in ast.unparse(x.func.value):
+                    hit = x
+            if hit is None:
+                continue
+            n += 1
+            why = INIT_READERS.get((mn, fi.qualname))
+            ctx.ob(R, f"{mn}::{fi.qualname}::reads-init-option", why is not None,
+                   f"start-vector code ({why})" if why else
+                   f"`{norm(hit, 60)}` is consulted outside the start-vector code: what this function converts now depends on the presence of "
+                   "previous results", fi.loc(hit))
+    if n < 8:
+        ctx.fail(f"INIT-SCOPE: only {n} readers of the init options found (confirmed: 11)")
 
 
 def rule_leftover_and_recycle(ctx):
@@ -539,6 +587,7 @@ def variants(repo):
     run_ = "pandapower/run.py"
     return [
         V("OPF clean-up only for one exception type", _opf, replace_once("    except BaseException:\n        # remove the auxiliary elements also when the OPF fails or does not converge", "    except KeyError:\n        # remove the auxiliary elements when a lookup fails"), "NO-LEFTOVER"),
+        V("slack voltage written only without results start", "pandapower/build_gen.py", replace_once('    if ppc.get("sequence", 1) == 1:\n        if calculate_voltage_angles:\n            ppc["bus"][eg_buses, VA]', '    if ppc.get("sequence", 1) == 1 and not net["_options"].get("init_results", False):\n        if calculate_voltage_angles:\n            ppc["bus"][eg_buses, VA]'), "INIT-SCOPE"),
         V("recycled run refreshes trafo3w only without trafo", pf, replace_once('        if "trafo3w" in lookup:', '        elif "trafo3w" in lookup:'), "RECYCLE-RERUN"),
         V("lookups not reset in conversion", pd, lambda s: _drop_lookup_reset(s, "pd2ppc"), "STALE-READ",
           note="powerflow.py keeps its own reset, so runopp/calc_sc/runpp_3ph fire"),
